@@ -333,8 +333,58 @@ def chunks(it, n):
         yield buf
 
 
+def w_stream(pid, tier, seed, job):
+    """'a byte stream over that list yields the concatenation of those sectors': AKAI Segment and Roland file over
+    resolved chains of 1-12 sectors in every kind of order, read in one call, in blocks, from inside, and with readall"""
+    import io
+    import random as _r
+    import views as VW
+    from smpl_extract.util.fat import FileStream
+    ctx = F.Ctx(pid, tier, seed)
+    rng = _r.Random(job)
+    L = rng.choice([4, 8, 16])
+    nsec = 24
+    content = bytes((i * 13 + 7) % 251 for i in range(nsec * L))
+    calls, metas = [], []
+    for _ in range(60 if tier == "quick" else 600):
+        n = rng.randint(1, 12)
+        kind = rng.random()
+        if kind < 0.25:
+            chain = sorted(rng.sample(range(nsec), n))
+        elif kind < 0.4:
+            chain = sorted(rng.sample(range(nsec), n), reverse=True)
+        elif kind < 0.7:
+            a = rng.randint(0, nsec - n)
+            chain = list(range(a, a + n))
+            mid = chain[1:-1]
+            rng.shuffle(mid)
+            chain = chain[:1] + mid + chain[-1:] if n > 2 else chain
+        else:
+            chain = rng.sample(range(nsec), n)
+        total = n * L
+        pats = [[("read", total)], [("read", total + 5)], [("read", -1)], [("seek", L // 2, 0), ("read", total)],
+                [("read", rng.randint(1, total)), ("read", total)], [("seek", rng.randint(0, total), 0), ("read", rng.randint(0, total))],
+                [("read", 3)] * 4 + [("read", total)]]
+        want = b"".join(content[s_ * L:(s_ + 1) * L] for s_ in chain)
+        for ops in pats:
+            st = FileStream(io.BytesIO(content), L, list(chain))
+            got = VW.run_impl(st, ops)
+            ref = VW.run_ref(want, ops, None)
+            case = {"sector_size": L, "chain": chain, "ops": ops}
+            ctx.count("chain_stream", (L, tuple(chain), tuple(ops)), nontrivial=n > 1)
+            ctx.require("a byte stream over the resolved sector list yields the concatenation of those sectors", case, VW.ref_agrees(ref, got),
+                        {"expected": ref, "got": got})
+            metas.append((case, got))
+            calls.append([VW.enc_view(("chain", L, tuple(chain), ("base",)), len(content)), list(content), 0, VW.enc_ops(ops)])
+    mod = M.call_batch("run_view", calls)
+    for (case, got), mv in zip(metas, mod):
+        ctx.agree("chain_stream(run_view)", case, got, VW.dec_outs(mv))
+    return ctx.dump()
+
+
 def run(ctx):
     rng = ctx.rng
+    F.pmap(ctx, w_stream, [ctx.seed * 53 + i for i in range(8 if ctx.quick else 32)])
     # get_path: exhaustive n <= 3 (quick) / 4 (thorough)
     nmax = 3 if ctx.quick else 4
     jobs = []
